@@ -203,6 +203,64 @@ def loop_header(n):
     return "while %s" % ast.unparse(n.test)
 
 
+def local_bindings(node):
+    """[(local name, source text of the statement / loop header that first binds it)] in source order, for the
+    function's own scope (nested defs excluded; parameters excluded).  Used to recognise pure renames of locals."""
+    params = set()
+    a = getattr(node, "args", None)
+    if a is not None:
+        params = {x.arg for x in a.args + a.kwonlyargs + a.posonlyargs} | ({a.vararg.arg} if a.vararg else set()) | \
+                 ({a.kwarg.arg} if a.kwarg else set())
+    found = {}
+
+    def names_of(t, acc):
+        if isinstance(t, ast.Name):
+            acc.append(t.id)
+        elif isinstance(t, (ast.Tuple, ast.List)):
+            for e in t.elts:
+                names_of(e, acc)
+        elif isinstance(t, ast.Starred):
+            names_of(t.value, acc)
+
+    def walk(n):
+        for ch in ast.iter_child_nodes(n):
+            if isinstance(ch, (ast.FunctionDef, ast.Lambda, ast.ClassDef, ast.AsyncFunctionDef)):
+                if isinstance(ch, (ast.FunctionDef, ast.AsyncFunctionDef, ast.ClassDef)) and ch.name not in params:
+                    found.setdefault(ch.name, (ch.lineno, ch.col_offset, "def " + ch.name))
+                continue
+            acc, text = [], None
+            if isinstance(ch, ast.Assign):
+                for t in ch.targets:
+                    names_of(t, acc)
+                text = ast.unparse(ch)
+            elif isinstance(ch, (ast.AnnAssign, ast.AugAssign)):
+                names_of(ch.target, acc)
+                text = ast.unparse(ch)
+            elif isinstance(ch, ast.For):
+                names_of(ch.target, acc)
+                text = loop_header(ch)
+            elif isinstance(ch, ast.With):
+                for it in ch.items:
+                    if it.optional_vars is not None:
+                        names_of(it.optional_vars, acc)
+                text = "with " + ", ".join(ast.unparse(it) for it in ch.items)
+            elif isinstance(ch, ast.ExceptHandler) and ch.name:
+                acc.append(ch.name)
+                text = "except %s as %s" % (ast.unparse(ch.type) if ch.type else "", ch.name)
+            elif isinstance(ch, ast.NamedExpr):
+                names_of(ch.target, acc)
+                text = ast.unparse(ch)
+            elif isinstance(ch, ast.comprehension):
+                pass
+            for nm in acc:
+                if nm not in params:
+                    found.setdefault(nm, (ch.lineno, ch.col_offset, text))
+            walk(ch)
+
+    walk(node)
+    return [(nm, v[2]) for nm, v in sorted(found.items(), key=lambda kv: (kv[1][0], kv[1][1], kv[0]))]
+
+
 def loops_in(node):
     """loops of a function body in source order (not descending into nested defs)."""
     out = []
